@@ -39,6 +39,8 @@ func checkC07(c *Ctx, r *Report) {
 	}
 	r.note("observation (not a violation of C06/C07): the $GENERATE sub-parser does not inherit the include file system (fsys); an $INCLUDE produced by a $GENERATE template opens through os.Open even when an include FS was configured")
 	c07NilFields(c, r, "C07.R6.nil-fields")
+	ttlNoWrap(c, r, "C07.R3.ttl-no-wrap")
+	rfc3597Whole(c, r, "C07.R3.rfc3597-whole")
 }
 
 var fileOpeners = map[string]bool{"os.Open": true, "os.OpenFile": true, "os.ReadFile": true, "os.Create": true, "fs.ReadFile": true, "ioutil.ReadFile": true, "os.ReadDir": true, "(fs.FS).Open": true, "(io/fs.FS).Open": true}
